@@ -428,6 +428,9 @@ class Engine:
             if a is not None and b is not None:
                 v = {"Lt": a < b, "Le": a <= b, "Eq": a == b, "Ne": a != b}[e[1]]
                 return v == truth
+        # an unsigned value is never below zero: `0 <= len` is always true, `len < 0` never (dead edges of a useless comparison)
+        if e[0] == "binop" and e[1] in ("Le", "Lt") and ((e[1] == "Le" and _is_zero(e[2]) and _is_unsigned(e[3])) or (e[1] == "Lt" and _is_zero(e[3]) and _is_unsigned(e[2]))):
+            return truth == (e[1] == "Le")
         ev = eq_variant(e)
         if ev is not None:
             scrut, vname, positive = ev
@@ -715,6 +718,23 @@ def _pkey(proj):
         else:
             out.append(str(e))
     return tuple(out)
+
+
+def _is_zero(e):
+    return isinstance(e, tuple) and e and e[0] == "const" and e[1] == 0 and e[1] is not False
+
+
+def _is_unsigned(e):
+    UNS = ("u8", "u16", "u32", "u64", "u128", "usize")
+    if not isinstance(e, tuple) or not e:
+        return False
+    if e[0] == "cast":
+        return e[2] in UNS
+    if e[0] == "const":
+        return len(e) > 2 and e[2] in UNS
+    if e[0] == "call":
+        return e[1].endswith(("::len", "::count", "::capacity"))
+    return False
 
 
 def _uncast_const(e):
